@@ -60,3 +60,13 @@ def edge_tests(g, limit=None, rnd=None, skip_self_loops=True):
 
 def parse_labels(labs):
     return [split_label(x) for x in labs]
+
+
+def path_nodes(parent, n):
+    """Node ids from the initial state to n along the BFS tree (inclusive)."""
+    ids = [n]
+    while parent[n] is not None:
+        n = parent[n][0]
+        ids.append(n)
+    ids.reverse()
+    return ids
